@@ -8,7 +8,10 @@ Streams
   ctor     u.new u.from_slice u.assign_from_slice i.new i.from_slice i.assign_from_slice i.from_biguint
            with 0..5 trailing zero words, odd / even word counts, all-zero input, every Sign request
            (also the inconsistent ones: NoSign with non-zero magnitude, Plus/Minus with zero).
-  hist     histories of in-place operations on 8 registers (4 BigUint + 4 BigInt) with themes that
+  hist     (ops: += -= *= (register and u32/u64/u128/i128 scalar forms) /= %= <<= >>= &= |= ^= set_bit
+           set_zero set_one clone_from assign_from_slice, negation; shift amounts and bit indices stay
+           small so that values stay small)
+           histories of in-place operations on 8 registers (4 BigUint + 4 BigInt) with themes that
            make buffers grow and shrink and make several registers reach the same integer along
            different routes; `!` checkpoints dump the whole state in the middle of a history.
 """
@@ -188,6 +191,71 @@ class Hist:
     def iset(self, d, v, pad=None):
         self.iasg(d, 1 if (v == 0 and self.rng.randrange(2)) else (2 if v >= 0 else 0), abs(v), pad)
 
+    # --- further in-place BigUint ops
+    def umul(self, d, s): self.u[d] *= self.u[s]; self.toks.append("u:mul:%d:%d" % (d, s))
+
+    def umuls(self, d, v, width=None):
+        """`*= v` through the narrowest (or the requested) scalar form"""
+        w = width or (32 if v < (1 << 32) else 64 if v < B else 128)
+        self.u[d] *= v
+        if w == 128:
+            self.toks.append("u:mul128:%d:%d:%x,%x" % (d, d, v % B, v // B))
+        else:
+            self.toks.append("u:mul%d:%d:%d:%x" % (w, d, d, v))
+
+    def udiv(self, d, s):
+        if self.u[s] != 0: self.u[d] //= self.u[s]
+        self.toks.append("u:div:%d:%d" % (d, s))      # zero divisor: documented failure, register unchanged
+
+    def urem(self, d, s):
+        if self.u[s] != 0: self.u[d] %= self.u[s]
+        self.toks.append("u:rem:%d:%d" % (d, s))
+
+    def ushl(self, d, k): self.u[d] <<= k; self.toks.append("u:shl:%d:%d:%x" % (d, d, k))
+    def ushr(self, d, k): self.u[d] >>= k; self.toks.append("u:shr:%d:%d:%x" % (d, d, k))
+    def uand(self, d, s): self.u[d] &= self.u[s]; self.toks.append("u:and:%d:%d" % (d, s))
+    def uor(self, d, s): self.u[d] |= self.u[s]; self.toks.append("u:or:%d:%d" % (d, s))
+    def uxor(self, d, s): self.u[d] ^= self.u[s]; self.toks.append("u:xor:%d:%d" % (d, s))
+
+    def usetbit(self, d, k, v):
+        self.u[d] = (self.u[d] | (1 << k)) if v else (self.u[d] & ~(1 << k))
+        self.toks.append("u:setbit:%d:%d:%x,%x" % (d, d, k, 1 if v else 0))
+
+    # --- further in-place BigInt ops
+    def imul(self, d, s): self.i[d] *= self.i[s]; self.toks.append("i:mul:%d:%d" % (d, s))
+
+    def imulu(self, d, v):
+        self.i[d] *= v; self.toks.append("i:mul128:%d:%d:%x,%x" % (d, d, v % B, v // B))
+
+    def imuli(self, d, v):
+        """`*= v as i128`, -2^127 <= v < 2^127"""
+        self.i[d] *= v
+        m = abs(v)
+        self.toks.append("i:muli128:%d:%d:%x,%x,%x" % (d, d, 1 if v < 0 else 0, m % B, m // B))
+
+    @staticmethod
+    def tdiv(x, y):
+        q = abs(x) // abs(y)
+        return q if (x < 0) == (y < 0) else -q
+
+    def idiv(self, d, s):
+        if self.i[s] != 0: self.i[d] = Hist.tdiv(self.i[d], self.i[s])
+        self.toks.append("i:div:%d:%d" % (d, s))
+
+    def irem(self, d, s):
+        if self.i[s] != 0: self.i[d] = self.i[d] - self.i[s] * Hist.tdiv(self.i[d], self.i[s])
+        self.toks.append("i:rem:%d:%d" % (d, s))
+
+    def ishl(self, d, k): self.i[d] <<= k; self.toks.append("i:shl:%d:%d:%x" % (d, d, k))
+    def ishr(self, d, k): self.i[d] >>= k; self.toks.append("i:shr:%d:%d:%x" % (d, d, k))
+    def iand(self, d, s): self.i[d] &= self.i[s]; self.toks.append("i:and:%d:%d" % (d, s))
+    def ior(self, d, s): self.i[d] |= self.i[s]; self.toks.append("i:or:%d:%d" % (d, s))
+    def ixor(self, d, s): self.i[d] ^= self.i[s]; self.toks.append("i:xor:%d:%d" % (d, s))
+
+    def isetbit(self, d, k, v):
+        self.i[d] = (self.i[d] | (1 << k)) if v else (self.i[d] & ~(1 << k))
+        self.toks.append("i:setbit:%d:%d:%x,%x" % (d, d, k, 1 if v else 0))
+
     def mark(self): self.toks.append("!")
 
     def line(self):
@@ -289,11 +357,142 @@ def theme_inconsistent_asg(h, rng, n):
     h.uasg(0, 0, pad=rng.randrange(1, 6)); h.uzero(1); h.usub(2, 3)
 
 
+WIDE = [1 << 64, (1 << 64) + 1, (1 << 128) - 1, 3 << 100, (1 << 127) - 1, 1 << 65, MAX + 2]
+
+
+def theme_negpow_setbit(h, rng, n):
+    """-(B^k) (top digit 1, all lower digits 0), then set_bit in a LOWER digit: the magnitude
+    loses its top digit (B^k - 2^b); also the neighbouring cases"""
+    k = rng.randrange(1, max(2, min(n, 5)) + 1)
+    b = rng.choice([0, 1, 63, 64 * k - 1, rng.randrange(64 * k)])
+    h.iset(0, -(B ** k)); h.isetbit(0, b, True)
+    h.iset(1, -(B ** k) + (1 << b))                       # the same integer, built arithmetically
+    h.mark()
+    h.iset(2, -(B ** k)); h.isetbit(2, 64 * k, True)     # the top bit itself: -(B^k) | B^k = -(B^k) (already set in two's complement)
+    h.iset(3, -(B ** k)); h.isetbit(3, rng.randrange(64 * k), False)   # clearing a zero bit of the expansion
+    h.isetbit(3, 64 * k + rng.randrange(1, 70), False)    # clearing a one bit above: magnitude grows
+    h.mark()
+    # positive side / BigUint: clearing the only top bit shortens the value, possibly to zero
+    h.uasg(0, B ** k); h.usetbit(0, 64 * k, False)        # -> 0
+    h.uasg(1, B ** k + 5); h.usetbit(1, 64 * k, False)    # -> 5 (k digits stripped)
+    h.uasg(2, 0); h.usetbit(2, 64 * k + 3, True); h.usetbit(2, 64 * k + 3, False)
+    h.uasg(3, 5)
+    h.iset(0, B ** k); h.isetbit(0, 64 * k, False)        # positive BigInt -> 0 must become NoSign
+    h.iset(1, -(B ** k) - 1); h.isetbit(1, 0, True)       # no change: bit 0 of -(B^k)-1 is set
+    h.iset(2, -1); h.isetbit(2, 64 * k, False)            # -1 & !2^(64k) = -(2^(64k)) - 1
+
+
+def theme_zero_times_wide(h, rng, n):
+    """a zero register (fresh, or brought to zero in place) times a scalar that needs two digits"""
+    w = rng.choice(WIDE)
+    v = big(rng, n)
+    h.uzero(0); h.umuls(0, w, 128)                          # fresh zero
+    h.uasg(1, v); h.usub(1, 1); h.umuls(1, rng.choice(WIDE), 128)   # brought to zero by x -= x
+    h.uasg(2, v); h.ushr(2, 64 * n + rng.randrange(0, 70)); h.umuls(2, rng.choice(WIDE), 128)   # >>= to zero
+    h.uasg(3, v); h.uclone(0, 3); h.uxor(3, 0); h.umuls(3, rng.choice(WIDE), 128)            # x ^= x
+    h.mark()
+    h.uasg(0, v); h.umuls(0, w, 128)                        # non-zero times wide
+    h.uasg(1, v); h.umuls(1, 0, 128); h.umuls(1, w)         # times 0 through the u128 form, then wide
+    h.uasg(2, v); h.uasg(3, w); h.umul(2, 3)                # register form, same product as register 0
+    h.izero(0); h.imulu(0, rng.choice(WIDE))
+    h.iset(1, signed(rng, v)); h.isub(1, 1); h.imuli(1, -rng.choice(WIDE[:2] + [1 << 127]))
+    h.iset(2, signed(rng, v)); h.iclone(3, 2); h.imulu(2, w); h.imuli(3, -w if w < (1 << 127) else -(1 << 127))
+    h.mark()
+    h.iset(0, -v); h.imuli(0, -(1 << 127)); h.iset(1, v); h.imulu(1, 1 << 127)   # equal integers, two routes
+    h.iset(2, v); h.imuli(2, 0); h.imulu(2, w)
+
+
+def theme_shrink(h, rng, n):
+    """&= to zero, >>= to zero, /= making the value shorter, %=, ^= with itself, |= into a longer buffer"""
+    v = big(rng, n); lo = big(rng, max(1, n // 2))
+    # disjoint bit masks: (v << 64n) & v = 0
+    h.uasg(0, v); h.uclone(1, 0); h.ushl(1, 64 * n); h.uand(1, 0)          # -> 0 in a long buffer
+    h.uasg(2, v); h.uasg(3, B ** (n - 1) if n > 1 else 3); h.udiv(2, 3)   # quotient has 1 digit (or fewer)
+    h.mark()
+    h.uasg(1, v * lo + 7); h.uasg(3, v); h.urem(1, 3)                      # remainder 7 % v
+    h.uasg(2, v); h.udiv(2, 0)                                             # v / v = 1
+    h.uasg(3, 0); h.udiv(2, 3); h.urem(2, 3)                               # zero divisor: not executed
+    h.uasg(3, v); h.uor(3, 1); h.uxor(3, 3)                                # -> 0
+    h.mark()
+    s1, s2 = rng.choice([1, -1]), rng.choice([1, -1])
+    h.iset(0, s1 * v); h.iset(1, s2 * (B ** (n - 1) if n > 1 else 3)); h.idiv(0, 1)
+    h.iset(2, s1 * (v * lo + 7)); h.iset(3, s2 * v); h.irem(2, 3)
+    h.iset(1, s1 * v); h.ishr(1, 64 * n + rng.randrange(0, 70))            # -> 0 (positive) or -1 (negative)
+    h.mark()
+    h.iset(0, s1 * v); h.iset(3, 0); h.idiv(0, 3); h.irem(0, 3)            # zero divisor: not executed
+    h.iclone(3, 0); h.ixor(3, 0)                                           # x ^ x = 0
+    h.iset(2, -v); h.iset(1, v - 1); h.iand(2, 1)                          # -v & (v-1): strips the low one-run
+    h.iset(1, s1 * lo); h.idiv(1, 0)                                       # |lo| < |v| -> 0
+    h.iset(2, -1); h.ior(2, 0)                                             # -1 | x = -1
+
+
+def theme_bits(h, rng, n):
+    """two's complement bit operations over all sign pairs, results crossing digit boundaries"""
+    a = big(rng, n); b = big(rng, rng.randrange(1, n + 2))
+    pats = [a, b, B ** n - 1, B ** n, B ** (n - 1) if n > 1 else 1, 1]
+    for d in range(4):
+        h.iset(d, signed(rng, rng.choice(pats)))
+    for _ in range(6):
+        d, s = rng.randrange(4), rng.randrange(4)
+        rng.choice([h.iand, h.ior, h.ixor])(d, s)
+    h.mark()
+    h.iset(0, -(B ** n)); h.iset(1, B ** n - 1); h.ior(0, 1)               # -> -1
+    h.iset(2, -(B ** n)); h.ixor(2, 1)                                     # -> -1... two routes
+    h.iset(3, -1)
+    h.ishl(3, 64 * n); h.ishr(3, 64 * n)                                   # -(B^n) >> 64n = -1
+    for d in range(4):
+        h.uasg(d, rng.choice(pats))
+    for _ in range(5):
+        d, s = rng.randrange(4), rng.randrange(4)
+        rng.choice([h.uand, h.uor, h.uxor])(d, s)
+    h.ushl(0, rng.randrange(0, 130)); h.ushr(0, rng.randrange(0, 200))
+
+
 def theme_random(h, rng, n, length):
     pool = [0, 1, MAX, B, big(rng, n), big(rng, max(1, n // 2)), big(rng, 1)]
     for d in range(4):
         h.uasg(d, rng.choice(pool)); h.iset(d, signed(rng, rng.choice(pool)))
+    cap = B ** (2 * n + 8)
+
+    def more(step):
+        """the further in-place operations (half of the random steps)"""
+        d, s = rng.randrange(4), rng.randrange(4)
+        r = rng.randrange(100)
+        sh = rng.choice([0, 1, 63, 64, 65, 128, rng.randrange(0, 300)])
+        bit = rng.choice([0, 63, 64, rng.randrange(0, 64 * n + 70)])
+        if rng.randrange(2):
+            if r < 12: h.umul(d, s)
+            elif r < 22: h.umuls(d, rng.choice([0, 1, 2, 3, MAX, 1 << 31] + WIDE), rng.choice([None, 128]))
+            elif r < 34: h.udiv(d, s)
+            elif r < 46: h.urem(d, s)
+            elif r < 54: h.ushl(d, sh)
+            elif r < 64: h.ushr(d, sh)
+            elif r < 72: h.uand(d, s)
+            elif r < 80: h.uor(d, s)
+            elif r < 88: h.uxor(d, s)
+            else: h.usetbit(d, bit, rng.randrange(2) == 1)
+        else:
+            if r < 12: h.imul(d, s)
+            elif r < 18: h.imulu(d, rng.choice([0, 1, 3, MAX] + WIDE))
+            elif r < 24: h.imuli(d, signed(rng, rng.choice([0, 1, 3, MAX, 1 << 64, (1 << 127) - 1])))
+            elif r < 35: h.idiv(d, s)
+            elif r < 46: h.irem(d, s)
+            elif r < 54: h.ishl(d, sh)
+            elif r < 64: h.ishr(d, sh)
+            elif r < 72: h.iand(d, s)
+            elif r < 80: h.ior(d, s)
+            elif r < 88: h.ixor(d, s)
+            else: h.isetbit(d, bit, rng.randrange(2) == 1)
+        for q in range(4):
+            if h.u[q] >= cap: h.uasg(q, rng.choice(pool))
+            if abs(h.i[q]) >= cap: h.iset(q, signed(rng, rng.choice(pool)))
+
     for step in range(length):
+        if rng.randrange(2):
+            more(step)
+            if step % 5 == 4 and rng.randrange(3) == 0:
+                h.mark()
+            continue
         d, s = rng.randrange(4), rng.randrange(4)
         r = rng.randrange(100)
         if rng.randrange(2):
@@ -321,7 +520,9 @@ def theme_random(h, rng, n, length):
 
 
 THEMES = [theme_grow_shrink, theme_clone_short_into_long, theme_zero_then_add, theme_borrow_chain,
-          theme_converge, theme_inconsistent_asg]
+          theme_converge, theme_inconsistent_asg,
+          theme_negpow_setbit, theme_zero_times_wide, theme_shrink, theme_bits,
+          theme_negpow_setbit, theme_zero_times_wide, theme_shrink]
 
 
 def hist_requests(rng, tier):
